@@ -174,6 +174,187 @@ def jacobianAdjChecked [Neg α] (includeEval inComplex outComplex : Bool) (Fu : 
 
 end wrappers
 
+/-! ## tables the model is built from (compared with the source by `lean/Scico/Generated/AutogradTables.lean`, which
+    `harness/autograd_translate.py` regenerates with `ast` on every run) -/
+
+namespace Tables
+
+/-- one function / closure of the differentiation layer: number of conjugations applied to a RESULT (`tree_map(conj, jg)`,
+    `G(…)[0].conj()`), number applied to one of its own ARGUMENTS (`tangent.conj()`, `tree_map(conj, primals)`), and the
+    `if` branch the closure is defined under -/
+structure ConjSite where
+  file : String
+  name : String
+  cond : String
+  result : Nat
+  arg : Nat
+deriving DecidableEq, Repr
+
+/-- `caller` passes `keyword=value` to `callee` -/
+structure Forward where
+  caller : String
+  callee : String
+  keyword : String
+  value : String
+deriving DecidableEq, Repr
+
+/-- one class of the `Functional` family as the translator sees it -/
+structure ClassRow where
+  name : String
+  bases : List String
+  hasInit : Bool
+  callsSuper : Bool
+  hasEval : String
+  defines : List String
+  assignsGradIn : List String
+deriving DecidableEq, Repr
+
+def ClassRow.key (c : ClassRow) : String × List String × List String × List String :=
+  (c.name, c.bases, c.defines, c.assignsGradIn)
+
+/-- the model's inventory of the family: bases, which of `grad/__mul__/__rmul__/__truediv__/set_scale/__add__` the class
+    defines, in which methods it assigns `_grad`, and HOW property C07 covers it -/
+structure FamilyRow where
+  name : String
+  bases : List String
+  defines : List String
+  assignsGradIn : List String
+  coverage : String
+deriving DecidableEq, Repr
+
+def FamilyRow.key (c : FamilyRow) : String × List String × List String × List String :=
+  (c.name, c.bases, c.defines, c.assignsGradIn)
+
+/-- `scicoGrad` (1,0): grad / value_and_grad / jacrev closures; `cvjpWrap`, `conjFun`, `vjpWrap true` (1,1);
+    `vjpWrap false`, `Operator.jvp`, the `jacobian`/`Function` plumbing (0,0) — see theorem `C07_conj_sites` -/
+def conjSites : List ConjSite := [
+  ⟨"scico/_autograd.py", "grad", "", 0, 0⟩,
+  ⟨"scico/_autograd.py", "grad.conjugated_grad_aux", "", 1, 0⟩,
+  ⟨"scico/_autograd.py", "grad.conjugated_grad", "", 1, 0⟩,
+  ⟨"scico/_autograd.py", "value_and_grad", "", 0, 0⟩,
+  ⟨"scico/_autograd.py", "value_and_grad.conjugated_value_and_grad_aux", "", 1, 0⟩,
+  ⟨"scico/_autograd.py", "value_and_grad.conjugated_value_and_grad", "", 1, 0⟩,
+  ⟨"scico/_autograd.py", "linear_adjoint", "", 0, 1⟩,
+  ⟨"scico/_autograd.py", "linear_adjoint.conj_fun", "", 1, 1⟩,
+  ⟨"scico/_autograd.py", "jacrev", "", 0, 0⟩,
+  ⟨"scico/_autograd.py", "jacrev.conjugated_jacrev", "", 1, 0⟩,
+  ⟨"scico/_autograd.py", "cvjp", "", 0, 0⟩,
+  ⟨"scico/_autograd.py", "cvjp.conj_vjp", "", 1, 1⟩,
+  ⟨"scico/operator/_operator.py", "Operator.jvp", "", 0, 0⟩,
+  ⟨"scico/operator/_operator.py", "Operator.vjp", "", 0, 0⟩,
+  ⟨"scico/operator/_operator.py", "Operator.vjp.Gmap#0", "conjugate", 1, 1⟩,
+  ⟨"scico/operator/_operator.py", "Operator.vjp.Gmap#1", "not conjugate", 0, 0⟩,
+  ⟨"scico/linop/_util.py", "jacobian", "", 0, 0⟩,
+  ⟨"scico/linop/_util.py", "jacobian.adj_fn", "include_eval", 0, 0⟩,
+  ⟨"scico/linop/_util.py", "jacobian.eval_fn#0", "include_eval", 0, 0⟩,
+  ⟨"scico/linop/_util.py", "jacobian.eval_fn#1", "not include_eval", 0, 0⟩,
+  ⟨"scico/function.py", "Function.slice", "", 0, 0⟩,
+  ⟨"scico/function.py", "Function.slice.pfunc", "", 0, 0⟩,
+  ⟨"scico/function.py", "Function.jvp", "", 0, 0⟩,
+  ⟨"scico/function.py", "Function.vjp", "", 0, 0⟩,
+  ⟨"scico/function.py", "Function.jacobian", "", 0, 0⟩
+]
+
+def forwards : List Forward := [
+  ⟨"jacobian", "vjp", "conjugate", "True"⟩,
+  ⟨"Function.vjp", "vjp", "conjugate", "conjugate"⟩,
+  ⟨"Function.jacobian", "jacobian", "include_eval", "include_eval"⟩
+]
+
+def linadjBranches : List (String × String) := [
+  ("any([jnp.iscomplexobj(_) for _ in primals])", "conj_fun"),
+  ("jnp.iscomplexobj(fun(*primals))", "conj_fun"),
+  ("else", "fun")
+]
+
+def linadjReturn : String := "jax.linear_transpose(_fun, *_primals)"
+
+def rescale : List (String × List String) := [
+  ("__mul__", ["new_loss = copy(self)", "new_loss._grad = scico.grad(new_loss.__call__)", "new_loss.set_scale(self.scale * other)", "return new_loss"]),
+  ("__rmul__", ["return self.__mul__(other)"]),
+  ("__truediv__", ["new_loss = copy(self)", "new_loss._grad = scico.grad(new_loss.__call__)", "new_loss.set_scale(self.scale / other)", "return new_loss"]),
+  ("set_scale", ["self.scale = new_scale"])
+]
+
+
+/-- `Fn.mulScalar` dispatches on exactly the classes that define `__mul__` (`ScaledFunctional` folds, `Loss` rescales a
+    copy, `Functional` wraps), `Fn.divScalar` on `__truediv__` (`Loss` only); `_grad` is assigned in `Functional.__init__`
+    and re-bound in `Loss.__mul__/__truediv__` (`Heap.copyRebindScale`) and nowhere else -/
+def family : List FamilyRow := [
+    ⟨"AnisotropicTVNorm", ["TVNorm"], [], [],
+     "model: Loss(0, G, l1), G = the object's FiniteDifference matrix (tie `tv`)"⟩,
+    ⟨"BM3D", ["Functional"], [], [],
+     "not evaluable (has_eval = False)"⟩,
+    ⟨"BM4D", ["Functional"], [], [],
+     "not evaluable (has_eval = False)"⟩,
+    ⟨"DnCNN", ["Functional"], [], [],
+     "not evaluable (has_eval = False)"⟩,
+    ⟨"Functional", [], ["__add__", "__mul__", "__rmul__", "grad"], ["__init__"],
+     "base class: binds `_grad = scico.grad(self.__call__)`"⟩,
+    ⟨"FunctionalSum", ["Functional"], [], [],
+     "model: Fn.add"⟩,
+    ⟨"HuberNorm", ["Functional"], [], [],
+     "model: Fn.huber (both forms)"⟩,
+    ⟨"IsotropicTVNorm", ["TVNorm"], [], [],
+     "model: Loss(0, G, l21) (tie `tv`)"⟩,
+    ⟨"L0Norm", ["Functional"], [], [],
+     "not smooth (piecewise constant): outside C07"⟩,
+    ⟨"L1MinusL2Norm", ["Functional"], [], [],
+     "model: Fn.l1ml2"⟩,
+    ⟨"L1Norm", ["Functional"], [], [],
+     "model: Fn.l1"⟩,
+    ⟨"L21Norm", ["Functional"], [], [],
+     "model: Fn.l21"⟩,
+    ⟨"L2BallIndicator", ["Functional"], [], [],
+     "indicator (not smooth): outside C07"⟩,
+    ⟨"L2Norm", ["Functional"], [], [],
+     "model: Fn.l2"⟩,
+    ⟨"Loss", ["Functional"], ["__mul__", "__rmul__", "__truediv__", "set_scale"], ["__mul__", "__truediv__"],
+     "model: Fn.loss / Fn.lossOp, Heap machine"⟩,
+    ⟨"NonNegativeIndicator", ["Functional"], [], [],
+     "indicator (not smooth): outside C07"⟩,
+    ⟨"NuclearNorm", ["Functional"], [], [],
+     "tie `nuclear` + finite-difference oracle (no theorem)"⟩,
+    ⟨"PoissonLoss", ["Loss"], [], [],
+     "model: Fn.poisson"⟩,
+    ⟨"ProximalAverage", ["Functional"], [], [],
+     "model: proxAvgFn"⟩,
+    ⟨"ScaledFunctional", ["Functional"], ["__mul__"], [],
+     "model: Fn.scaled"⟩,
+    ⟨"SeparableFunctional", ["Functional"], [], [],
+     "model: Fn.sep"⟩,
+    ⟨"SetDistance", ["Functional"], [], [],
+     "theorems C07_set_distance / C07_distance_convex, ties `setdist`, `setdist_convex`"⟩,
+    ⟨"SquaredL2AbsLoss", ["Loss"], [], [],
+     "model: Fn.sqL2AbsLoss"⟩,
+    ⟨"SquaredL2Loss", ["Loss"], [], [],
+     "model: Fn.sqL2Loss / Fn.sqL2LossOp, hessianApply"⟩,
+    ⟨"SquaredL2Norm", ["Functional"], [], [],
+     "model: Fn.sqL2"⟩,
+    ⟨"SquaredL2SquaredAbsLoss", ["Loss"], [], [],
+     "model: Fn.sqL2SqAbsLoss"⟩,
+    ⟨"SquaredSetDistance", ["Functional"], [], [],
+     "theorems C07_set_distance / C07_squared_distance_convex, ties `setdist`, `setdist_convex`"⟩,
+    ⟨"TVNorm", ["Functional"], [], [],
+     "model: Loss(0, G, norm) (tie `tv`)"⟩,
+    ⟨"ZeroFunctional", ["Functional"], [], [],
+     "model: Fn.zero"⟩
+]
+
+def siteCounts (name : String) : Option (Nat × Nat) :=
+  (conjSites.find? (fun s => s.name == name)).map (fun s => (s.result, s.arg))
+
+end Tables
+
+/-- `k` conjugations -/
+def conjTimes {α : Type} [Neg α] {n : Nat} : Nat → CVec α n → CVec α n
+  | 0, v => v
+  | k + 1, v => conjVec (conjTimes k v)
+
+/-- a wrapper that conjugates its argument `a` times and its result `r` times around `G` -/
+def applySite {α : Type} [Neg α] {n m : Nat} (r a : Nat) (G : CVec α m → CVec α n) (v : CVec α m) : CVec α n :=
+  conjTimes r (G (conjTimes a v))
+
 /-! ## positional-argument plumbing of `Function.slice/jvp/vjp/jacobian` and `scico.util.partial` -/
 
 section plumbing
